@@ -49,6 +49,13 @@ func sweepUniverse() []*T17 {
 		add(&T17{K: "obj", F: []string{"x", "z"}, A: []*T17{{K: "num"}, {K: "str"}}})
 		add(&T17{K: "obj", F: []string{"y"}, A: []*T17{{K: "num"}}})
 		add(&T17{K: "obj"})
+		// functions without parameters, alone and nested
+		for _, a := range at {
+			add(&T17{K: "fun", N: "f", A: []*T17{a}})
+			add(&T17{K: "list", A: []*T17{{K: "fun", N: "f", A: []*T17{a}}}})
+		}
+		add(&T17{K: "fun", N: "f", A: []*T17{{K: "list", A: []*T17{{K: "var", N: "a1"}}}}})
+		add(&T17{K: "fun", N: "f", A: []*T17{{K: "list", A: []*T17{{K: "str"}}}}})
 		var u []*T17
 		u = append(u, at...)
 		u = append(u, d1...)
